@@ -430,6 +430,20 @@ func (e *Engine) LoadContracts(specDir string) error {
 			e.callbacks[key] = c
 		}
 	}
+	// a callsite contract is only checked where the callee is applied through a contract: a callee without one would make the
+	// callsite clauses silently unchecked
+	for key, cs := range e.callsites {
+		callee := key[strings.Index(key, "|")+1:]
+		if e.contracts[callee] == nil && e.callbacks[callee] == nil {
+			isCb := false
+			if k, err := e.resolveCallbackName(cs[0]); err == nil && e.callbacks[k] != nil {
+				isCb = true
+			}
+			if !isCb {
+				return fmt.Errorf("%s:%d: callsite contract for %s, which has no contract of its own (give it one, `modifies nothing` at least)", cs[0].File, cs[0].Line, callee)
+			}
+		}
+	}
 	return e.checkImmutable()
 }
 
